@@ -598,6 +598,128 @@ fn run_multi(case: &MultiCase, classes: &mut u64) -> Result<(), Failure> {
 }
 
 // ---------------------------------------------------------------------------------------------
+// (b') multi-borrow over zero-sized state types (marker states): distinct types are distinct states even when their
+// instances have no size (and hence no distinguishable address)
+// ---------------------------------------------------------------------------------------------
+
+#[derive(Tid, Default)]
+pub struct Z0;
+impl CustomState<'_> for Z0 {}
+#[derive(Tid, Default)]
+pub struct Z1;
+impl CustomState<'_> for Z1 {}
+#[derive(Tid, Default)]
+pub struct Z2;
+impl CustomState<'_> for Z2 {}
+
+/// tuple index into `ZST_TUPLES`; layout[scope] = bitmask over (Z0, Z1, Z2, M0)
+#[derive(Clone, Debug, Serialize, Deserialize)]
+pub struct ZstCase {
+    pub tuple: usize,
+    pub layout: Vec<u8>,
+}
+
+macro_rules! zst_tuple {
+    ($reg:expr, $($T:ty),+) => {
+        $reg.try_get_multiple_mut::<($($T),+)>().map(|_| ()).map_err(|e| err_kind(&e))
+    };
+}
+
+/// (types as universe indices 0=Z0 1=Z1 2=Z2 3=M0, instantiation)
+#[allow(clippy::type_complexity)]
+static ZST_TUPLES: &[(&[u8], fn(&mut StateRegistry<'static>) -> Result<(), &'static str>)] = &[
+    (&[0, 1], |r| zst_tuple!(r, Z0, Z1)),
+    (&[1, 0], |r| zst_tuple!(r, Z1, Z0)),
+    (&[0, 0], |r| zst_tuple!(r, Z0, Z0)),
+    (&[0, 1, 2], |r| zst_tuple!(r, Z0, Z1, Z2)),
+    (&[0, 3], |r| zst_tuple!(r, Z0, M0)),
+    (&[3, 0, 1], |r| zst_tuple!(r, M0, Z0, Z1)),
+    (&[0, 3, 1, 2], |r| zst_tuple!(r, Z0, M0, Z1, Z2)),
+    (&[0, 1, 0], |r| zst_tuple!(r, Z0, Z1, Z0)),
+    (&[2, 1, 2], |r| zst_tuple!(r, Z2, Z1, Z2)),
+    (&[2, 3], |r| zst_tuple!(r, Z2, M0)),
+];
+
+pub struct ZstCheck;
+
+impl Check for ZstCheck {
+    type Case = ZstCase;
+    fn name(&self) -> String {
+        "C02/multi-borrow-zero-sized".into()
+    }
+    fn classes(&self) -> &'static [&'static str] {
+        &["duplicate", "missing", "all distinct and present", ">= 2 zero-sized types granted together", "spread over >= 2 scopes"]
+    }
+    fn oracle(&self, case: &ZstCase) -> Outcome {
+        let (types, f) = ZST_TUPLES[case.tuple % ZST_TUPLES.len()];
+        let layout: Vec<u8> = if case.layout.is_empty() { vec![0] } else { case.layout.iter().take(3).cloned().collect() };
+        let mut reg = StateRegistry::new();
+        for (s, mask) in layout.iter().enumerate() {
+            if s > 0 {
+                reg = reg.into_child();
+            }
+            if mask & 1 != 0 {
+                reg.insert(Z0);
+            }
+            if mask & 2 != 0 {
+                reg.insert(Z1);
+            }
+            if mask & 4 != 0 {
+                reg.insert(Z2);
+            }
+            if mask & 8 != 0 {
+                reg.insert(M0(s as i64));
+            }
+        }
+        let holder = |t: u8| -> Option<usize> { (0..layout.len()).rev().find(|&s| layout[s] & (1 << t) != 0) };
+        let dup = (0..types.len()).any(|i| (0..i).any(|j| types[i] == types[j]));
+        let missing = types.iter().any(|t| holder(*t).is_none());
+        let mut classes = 0u64;
+        if dup {
+            classes |= 1;
+        }
+        if missing {
+            classes |= 2;
+        }
+        if !dup && !missing {
+            classes |= 4;
+            if types.iter().filter(|t| **t < 3).count() >= 2 {
+                classes |= 8;
+            }
+        }
+        if types.iter().filter_map(|t| holder(*t)).collect::<std::collections::BTreeSet<_>>().len() >= 2 {
+            classes |= 16;
+        }
+        let at = format!("zero-sized tuple {types:?} (0..2 = zero-sized marker states, 3 = M0) on layout {layout:?}");
+        let out = f(&mut reg);
+        let r = (|| -> Result<(), Failure> {
+            match (&out, dup, missing) {
+                (Err(k), true, false) => ensure_that!(*k == "MultipleBorrowConflict", "C02 multi-borrow duplicate error kind", "{at}: duplicate type reported as {k}"),
+                (Err(k), false, true) => ensure_that!(*k == "NotFound", "C02 multi-borrow missing error kind", "{at}: missing type reported as {k}"),
+                (Err(_), true, true) => {}
+                (Ok(()), true, _) => fail!("C02 multi-borrow granted with repeated type", "{at}: returned references although a type repeats"),
+                (Ok(()), false, true) => fail!("C02 multi-borrow granted with missing type", "{at}: returned references although a type is missing"),
+                (Err(k), false, false) => fail!("C02 multi-borrow refused valid tuple", "{at}: refused with {k} although all types are distinct and present"),
+                (Ok(()), false, false) => {}
+            }
+            // nothing was added or removed
+            let mut level: Option<&StateRegistry> = Some(&reg);
+            let mut s = layout.len();
+            while let Some(r) = level {
+                s -= 1;
+                let got = [r.contains_at_top::<Z0>(), r.contains_at_top::<Z1>(), r.contains_at_top::<Z2>(), r.contains_at_top::<M0>()];
+                for (t, g) in got.iter().enumerate() {
+                    ensure_that!(*g == (layout[s] & (1 << t) != 0), "C02 multi-borrow changed the registry", "{at}: presence of type {t} in scope {s} is {g} after the call");
+                }
+                level = r.parent();
+            }
+            Ok(())
+        })();
+        Outcome::new(classes & 0b1011 != 0, classes, r)
+    }
+}
+
+// ---------------------------------------------------------------------------------------------
 // (c) holding
 // ---------------------------------------------------------------------------------------------
 
@@ -609,7 +731,7 @@ impl Check for HoldCheck {
         "C02/holding".into()
     }
     fn classes(&self) -> &'static [&'static str] {
-        &["", "", "", "", "", "with_inner_state inside", "", "", "holding", "failure at nesting depth >= 1", "nested holding", "holding of absent type", "held type lives in a parent scope", "failing holding"]
+        &["", "", "", "", "", "with_inner_state inside", "", "", "holding", "failure at nesting depth >= 1", "nested holding", "holding of absent type", "held type lives in a parent scope", "failing holding", "held type inserted into an intermediate scope while held"]
     }
     fn oracle(&self, ops: &Vec<c01::Op>) -> Outcome {
         let mut ex = c01::Exec::new();
@@ -658,6 +780,8 @@ fn hold_exhaustive() -> Vec<Vec<c01::Op>> {
         vec![Op::SetValue(1, 8), Op::WriteHeld(9), Op::Remove(2)],
         vec![Op::WithInner(vec![Op::Insert(0, 33), Op::SetValue(1, 7)], false), Op::WriteHeld(4)],
         vec![Op::WithInner(vec![Op::Insert(0, 33)], true)],
+        vec![Op::InsertAt(1, 0, 44), Op::InsertAt(1, 1, 45), Op::InsertAt(2, 2, 46)],
+        vec![Op::InsertAt(1, 1, 45), Op::WithInner(vec![Op::InsertAt(2, 0, 47)], false)],
     ];
     for setup in &setups {
         for order in [[0u8, 1, 2], [2, 1, 0], [1, 0, 2], [0, 0, 1], [1, 1, 1], [3, 0, 1]] {
@@ -685,16 +809,18 @@ fn hold_exhaustive() -> Vec<Vec<c01::Op>> {
 }
 
 pub fn run_all(ctx: &mut Ctx, replay: Option<&Path>) {
-    ctx.rule("three generators: (a) guard histories — a layout of 3 types over <= 3 scopes, then acquire/release/read/write/set_value/try_get_value/panicking accessors through &State, checked against a readers/writer automaton per (type, scope) cell; non-trivial = >= 2 guards live on one cell with >= 1 refused request, or the same type held in two scopes; (b) multi-borrow — a generated tuple instantiation of try_get_multiple_mut (all 117 tuples of arity 2-4 over 3 types; structured tuples of arity 5-8 over 8 types) against a layout of the 8 types over 1-3 scopes; non-trivial = duplicate / missing / arity >= 5 / shadowed instance; (c) holding — registry histories with nested State::holding (depth <= 3) with bodies that are registry sub-histories and injected failures; non-trivial = failure at nesting depth >= 1, or a failing holding of a type living in a parent scope; distinct by case");
-    ctx.assume("a holding body never inserts the held type itself and keeps the scope depth balanced");
+    ctx.rule("three generators: (a) guard histories — a layout of 3 types over <= 3 scopes, then acquire/release/read/write/set_value/try_get_value/panicking accessors through &State, checked against a readers/writer automaton per (type, scope) cell; non-trivial = >= 2 guards live on one cell with >= 1 refused request, or the same type held in two scopes; (b) multi-borrow — a generated tuple instantiation of try_get_multiple_mut (all 117 tuples of arity 2-4 over 3 types; structured tuples of arity 5-8 over 8 types) against a layout of the 8 types over 1-3 scopes; non-trivial = duplicate / missing / arity >= 5 / shadowed instance; (b') the same over tuples that contain zero-sized marker state types (distinct types are distinct states although their instances have no distinguishable address), exhaustive over the layouts; (c) holding — registry histories with nested State::holding (depth <= 3) with bodies that are registry sub-histories and injected failures; non-trivial = failure at nesting depth >= 1, or a failing holding of a type living in a parent scope; distinct by case");
+    ctx.assume("a holding body never inserts the held type into the scope the held instance was taken from (inserting it into any other scope is generated) and keeps the scope depth balanced");
     ctx.assume("when a tuple both repeats a type and misses one, any error is accepted");
     let g = GuardCheck;
     let m = MultiCheck;
     let h = HoldCheck;
+    let z = ZstCheck;
     if let Some(p) = replay {
-        let _ = ctx.replay_file(&g, p) || ctx.replay_file(&m, p) || ctx.replay_file(&h, p);
+        let _ = ctx.replay_file(&g, p) || ctx.replay_file(&m, p) || ctx.replay_file(&h, p) || ctx.replay_file(&z, p);
         return;
     }
+    ctx.regressions(&z);
     ctx.regressions(&g);
     ctx.regressions(&m);
     ctx.regressions(&h);
@@ -730,6 +856,17 @@ pub fn run_all(ctx: &mut Ctx, replay: Option<&Path>) {
     );
     let n = ctx.tier.pick(2000, 40_000);
     ctx.random(&m, (0..ntuples, proptest::collection::vec(any::<u8>(), 1..4), any::<bool>()).prop_map(|(tuple, layout, panicking)| MultiCase { tuple, layout, panicking }), n);
+    // (b')
+    let nz = ZST_TUPLES.len();
+    ctx.exhaustive(
+        &z,
+        &format!("all {nz} tuple instantiations mixing zero-sized marker states and a sized state x all layouts of the 4 types over 1 or 2 scopes (16 + 256)"),
+        (0..nz).flat_map(|t| {
+            let one = (0..16u8).map(move |a| ZstCase { tuple: t, layout: vec![a] });
+            let two = (0..16u8).flat_map(move |a| (0..16u8).map(move |b| ZstCase { tuple: t, layout: vec![a, b] }));
+            one.chain(two).collect::<Vec<_>>()
+        }),
+    );
     // (c)
     ctx.exhaustive(&h, "4 scope layouts x 6 type orders x nesting depth 1..3 x failure at each depth or nowhere x 5 bodies", hold_exhaustive().into_iter());
     let n = ctx.tier.pick(3000, 50_000);
